@@ -280,6 +280,40 @@ func (ctx *RenderContext) GetVariable(name string) (interface{}, error) {
 	return nil, nil
 }
 
+// visibleVariables returns every variable visible from this context: its own and
+// those of its ancestors, the nearest definition winning (the lookup order of
+// GetVariable). A context without a parent returns its own map.
+func (ctx *RenderContext) visibleVariables() map[string]interface{} {
+	if ctx.parent == nil {
+		return ctx.context
+	}
+
+	var chain []*RenderContext
+	for c := ctx; c != nil; c = c.parent {
+		chain = append(chain, c)
+	}
+
+	vars := make(map[string]interface{})
+	for i := len(chain) - 1; i >= 0; i-- {
+		for k, v := range chain[i].context {
+			vars[k] = v
+		}
+	}
+	return vars
+}
+
+// forgetBlocks empties the block tables a cloned context inherited. An included
+// template is rendered on its own: the including template's blocks must neither
+// override the blocks of the included template nor of a layout it extends.
+func (ctx *RenderContext) forgetBlocks() {
+	for k := range ctx.blocks {
+		delete(ctx.blocks, k)
+	}
+	for k := range ctx.parentBlocks {
+		delete(ctx.parentBlocks, k)
+	}
+}
+
 // GetVariableOrNil gets a variable from the context, returning nil silently if not found
 func (ctx *RenderContext) GetVariableOrNil(name string) interface{} {
 	value, _ := ctx.GetVariable(name)
